@@ -456,6 +456,8 @@ pub fn run(a: &Args) {
     } }
     // count bytes after histories of the typed API (IS_MAL NumM / IS_IPB NumB), IS_VER field positions for any version value
     crate::wire::typed_api_checks("C02", a, &mut st);
+    // CName[4] / SkinID in every packet that carries one: the v9 rule (three alphanumerics + NUL = official car, zeros = unknown, else mod id)
+    crate::c13::packet_sweep("C02", a, &mut st);
     st.add("observations:value compared through the public fields", obs.checked);
     st.add("observations:field not observable through Debug (opaque types, addresses, unnamed enumerants)", obs.unobservable);
     st.rule = "reference frames built from the dumped specification transcription by a table-driven encoder: per packet type the all-default frame, every non-spare field set to each enumerant / single flag bit and all bits / boundary integers with distinct byte patterns / texts / times, arrays of 0..max elements with element fields varied, variable texts and word arrays, both size modes; each frame must decode to its own type, show the carried value under the implementation's field name, and re-encode byte for byte; distinct = distinct reference frames".into();
